@@ -104,6 +104,11 @@ func runC17(c *Ctx) {
 		}
 	}
 	c17FailedSendKeepsMessage(c)
+	runFanoutOwnership(c)
+	runRecvKeepsBytes(c)
+	runSharedForward(c)
+	runRawRetryAfterTimeout(c)
+	ledgerCheck(c, "directed ownership scenarios", nil)
 }
 
 // ---------------------------------------------------------------- (1) direct ledger correspondence
